@@ -6,7 +6,8 @@ def engines : List (String × (List String → String)) := [
   ("ftp", Wpull.Ftp.handle),
   ("crawl", Wpull.Crawl.handle),
   ("path", Wpull.Path.handle),
-  ("robots", Wpull.Robots.handle)
+  ("robots", Wpull.Robots.handle),
+  ("decomp", Wpull.Decomp.handle)
 ]
 
 def handle (line : String) : String :=
